@@ -76,7 +76,9 @@ class Gen(object):
             # (a string holds anything but a double quote and a line break; the language has no escape sequences,
             # so a backslash is a character like any other - also as the last one)
             return om.string(r.choice(('', 'abc', 'a b', '// no comment', '/* nor this */', "it's", 'end if;',
-                                       'C:\\tmp\\', '\\', 'a\\"b'.replace('"', ''), '\\n', 'tab\there', '100%', '\u00e5\u00e4\u00f6')))
+                                       'C:\\tmp\\', '\\', 'a\\"b'.replace('"', ''), '\\n', 'tab\there', '100%', '\u00e5\u00e4\u00f6',
+                                       # characters that end a line by other conventions (a string ends at a line feed only)
+                                       'a\x0cb', 'l\u2028s', 'n\x85l', 'v\x0bt', 'f\x1cs\x1d\x1e', 'p\u2029', 'cr\rhere')))
         if k < 0.56:
             return om.boolean(r.random() < 0.5)
         if k < 0.66:
@@ -137,6 +139,10 @@ class Gen(object):
         r = self.rng
         p = r.choice(PHRASES)
         ticked = (' ' in p) or r.random() < 0.6
+        if r.random() < 0.1:
+            # a ticked phrase holds anything but a tick
+            p = p + r.choice(('\x0c', '\u2028x', '\x85', '\x0b', ' \x1c', '\u2029', '\nnext line', '\rcr'))
+            ticked = True
         return p, ticked
 
     def inst_name(self):
